@@ -5,4 +5,8 @@ pub mod core;
 pub mod mpdfilter;
 pub mod mpdtok;
 pub mod cmdlab;
+pub mod refdec;
+pub mod seg;
+pub mod streamlab;
+pub mod wire;
 pub mod props;
